@@ -270,6 +270,11 @@ pub fn trace(o: &Opts) -> R<()> {
             }
         }
     }
+    // every opcode that does not transfer control once, deterministically (the stack effect of each)
+    for prog in progen::stack_effects_all() {
+        extra.push((prog.family, prog.code));
+        extra_limits.push(None);
+    }
     let mut modes = Vec::new();
     for i in 0..(n + extra.len()) {
         let prog = if i < extra.len() {
